@@ -130,8 +130,12 @@ class KeySet:
         return {"keys": keys}
 
     def get_by_kid(self, kid: str | None = None) -> Key:
-        if kid is None and len(self.keys) == 1:
-            return self.keys[0]
+        if kid is None:
+            # no name to go by: only a set of one key has an answer (a key appended
+            # to ``keys`` later may not have a "kid" yet, it is not "the key named None")
+            if len(self.keys) == 1:
+                return self.keys[0]
+            raise InvalidKeyIdError('No key for kid: "None"')
 
         for key in self.keys:
             if key.kid == kid:
